@@ -162,7 +162,7 @@ def main(prop, tier, seed, replay_path=None):
     quick = tier == 'quick'
     rng = random.Random(seed * 71 + 15)
     charts = family_sys(rng, 6 if quick else 20)
-    pairs = [(rng.randint(1, len(charts)), rng.randint(1, len(charts))) for _ in range(3 if quick else 12)]
+    pairs = [(rng.randint(1, len(charts)), rng.randint(1, len(charts))) for _ in range(3 if quick else 8)]
     if replay_path:
         doc = json.load(open(replay_path if os.path.isabs(replay_path) else os.path.join(tlc.VERIF, replay_path)))
         charts, pairs = doc['charts'], [tuple(doc['pair'])]
@@ -179,6 +179,9 @@ def main(prop, tier, seed, replay_path=None):
             print('MACHINERY-FAILURE property=C15: design check of System.tla failed\n' + (mc['error'] or mc['out'][-2500:]))
             return 2
         edges = [j for j in mc['json'] if 'hist' in j]
+        cap = 40000 if quick else 120000       # bound the replay: a seeded sample of the explored edges
+        if len(edges) > cap:
+            edges = rng.sample(edges, cap)
     jobs = []
     for k, e in enumerate(edges):
         h = e['hist'] if isinstance(e['hist'], list) else []
@@ -230,14 +233,23 @@ def main(prop, tier, seed, replay_path=None):
     d2 = tlc.workdir('C15_system_tr')
     with open(os.path.join(d2, 'PairsData.tla'), 'w') as f:
         f.write(pairs_module(charts, pairs))
-    path = os.path.join(d2, 'traces.json')
     for t in traces:
         for ln in t['lines']:
             ln.pop('classes', None)
-    json.dump([t for t in traces if t['lines']], open(path, 'w'))
-    tlc.write_mc(d2, 'SystemTrace', {'N': N, 'K': K}, spec='TSpec', invariants=['Report'])
-    tr = tlc.run(d2, env={'TRACE_FILE': path}, timeout=3000, heap='12g')
-    reports = {j['id']: j for j in tr['json'] if isinstance(j, dict) and 'id' in j}
+    good = [t for t in traces if t['lines']]
+    reports, tr = {}, {'error': None, 'cmd': ''}
+    for bi in range(0, len(good), 25000):
+        dd = d2 if bi == 0 else tlc.workdir('C15_system_tr%d' % (bi // 25000))
+        if bi:
+            with open(os.path.join(dd, 'PairsData.tla'), 'w') as f:
+                f.write(pairs_module(charts, pairs))
+        path = os.path.join(dd, 'traces.json')
+        json.dump(good[bi:bi + 25000], open(path, 'w'))
+        tlc.write_mc(dd, 'SystemTrace', {'N': N, 'K': K}, spec='TSpec', invariants=['Report'])
+        tr = tlc.run(dd, env={'TRACE_FILE': path}, timeout=3000, heap='10g')
+        reports.update({j['id']: j for j in tr['json'] if isinstance(j, dict) and 'id' in j})
+        if tr['error']:
+            break
     if tr['error'] or any(t['id'] not in reports for t in traces if t['lines']):
         print('MACHINERY-FAILURE property=C15: trace check failed or incomplete\n' + str(tr['error']))
         return 2
